@@ -38,6 +38,11 @@ SNIPPETS = [
     ('', (1, 0)),
     ('class A:\n    def m(self):\n        self.q = 1\n        return self.', (4, 20)),
     ('import m0\nm0.w.bi', (2, 7)),
+    # names of supp's own modules: the server is started as a script inside the package directory, which must not
+    # turn them into top-level modules of the user's project
+    ('import merged_dict\nmerged_dict.', (2, 12)),
+    ('import evaluator, linter\nevaluator.Ev', (2, 12)),
+    ('import umsgpack\numsgpack.', (2, 9)),
 ]
 BROKEN = ['def f(:\n', 'x = (1,\n', 'class\n', 'import os\nos.path.(\n', 'if x\n    pass\n']
 
